@@ -1,7 +1,7 @@
 // Kani proof harnesses for lang/statics/src/builtin.rs (BuiltinOperationAbi::for_role: pure Box
 // trees, no arena access).
 use super::*;
-include!("/verif/harness/common_roles.rs");
+include!("common_roles.rs");
 
 #[derive(PartialEq, Eq, Clone, Copy)]
 enum Tail {
